@@ -69,9 +69,14 @@ def js_parse_int(*args):
         return float("nan")
     digits = text[:end].lstrip("0") or "0"
     if len(digits) > 400:
-        # Only the leading digits can matter for a double (400 digits are more than enough
-        # bits in every radix), and int() limits the length of its input
-        value = int(digits[:400], radix) * radix ** (len(digits) - 400)
+        # int() limits the length of its input (except for radixes that are powers of two)
+        if radix in (2, 4, 8, 16, 32):
+            value = int(digits, radix)  # exact: the result must be the correctly rounded double
+        elif radix == 10:
+            return norm_number(sign * float(digits)) if digits != "0" else (-0.0 if sign < 0 else 0)
+        else:
+            # (other radixes may be approximated beyond 20 significant digits)
+            value = int(digits[:400], radix) * radix ** (len(digits) - 400)
     else:
         value = int(digits, radix)
     if value == 0 and sign < 0:
